@@ -11,15 +11,30 @@
 -/
 import BumpverVerif.Gen.F_parseVersionTags
 import BumpverVerif.Proofs.TieCliLemmas
+set_option linter.unusedSimpArgs false
 namespace BV
+
+/- whnf must not run into the regex compiler -/
+attribute [local irreducible] isValid parseVersionInfo v1IsValid v1ParseVersionInfo pyV2IsValid pyV1IsValid
 
 /-- the generated definition is the filter over the engine `is_new_pattern` selects -/
 theorem parseVersionTags_gen (today : Date) (tags : List Str) (pat : Str) (isNew : Bool) :
     GenC.parseVersionTags today tags pat isNew
       = pyFilterM (fun t => if isNew then pyV2IsValid today t pat else pyV1IsValid t pat) tags := by
   unfold GenC.parseVersionTags
-  cases isNew <;>
-    (split <;> (rename_i h; rw [← h]; apply pyFilterM_congr; intro x; split <;> simp_all))
+  first
+    | -- the explicit loop `out = []; for tag in all_tags: if parser.is_valid(tag, pattern): out.append(tag)`
+      (dsimp only
+       cases isNew <;>
+        (split <;>
+          (rename_i h; rw [← h]; apply pyForM_filter_nil; intro acc x
+           simp only [Bool.false_eq_true, if_false, if_true]
+           first
+             | (cases pyV2IsValid today x pat <;> (try rfl); rename_i b; cases b <;> rfl)
+             | (cases pyV1IsValid x pat <;> (try rfl); rename_i b; cases b <;> rfl))))
+    | -- the comprehension `[tag for tag in all_tags if parser.is_valid(tag, pattern)]`
+      (cases isNew <;>
+        (split <;> (rename_i h; rw [← h]; apply pyFilterM_congr; intro x; split <;> simp_all)))
 
 theorem tie_parseVersionTags_new (today : Date) (tags : List Str) (pat : Str) :
     GenC.parseVersionTags today tags pat true = liftV2 (parseVersionTags pat today tags) := by
